@@ -1582,11 +1582,6 @@ class LogicalFile:
                     for eflr_item in eflr_set.get_all_eflr_items():
                         if eflr_item.origin_reference is None:
                             eflr_item.origin_reference = o.origin_reference
-            for eflr_set_dict in self.physical_file._eflr_sets.values():
-                for eflr_set in eflr_set_dict.values():
-                    for eflr_item in eflr_set.get_all_eflr_items():
-                        if eflr_item.origin_reference is None:
-                            eflr_item.origin_reference = o.origin_reference
 
             # Not enlisted in the sets. See Issue #
             self.file_header_item.origin_reference = o.origin_reference
